@@ -21,7 +21,7 @@ type txCase struct {
 	ID      string          `json:"id"`
 	Kind    string          `json:"kind"` // message | profileName | validationName | in | containsAll | containsSome
 	Text    string          `json:"text"`
-	Present map[string]bool `json:"present"` // which placeholder properties the focus node has
+	Present map[string]bool `json:"present"`       // which placeholder properties the focus node has
 	CLI     string          `json:"cli,omitempty"` // path of the acv binary: the same texts also go through `acv validate`
 	Scratch string          `json:"scratch,omitempty"`
 }
